@@ -6,6 +6,7 @@
 mod cfg;
 mod c20;
 mod c19;
+mod c18;
 
 use cfg::Cfg;
 
@@ -25,6 +26,7 @@ fn main() {
     let report = match vnet::catch(|| match name {
         "c20" => c20::run(&cfg),
         "c19" => c19::run(&cfg),
+        "c18" => c18::run(&cfg),
         _ => {
             eprintln!("unknown monitor {name}");
             std::process::exit(2);
